@@ -10,7 +10,16 @@
    (IterProofs.v: inext_fuel_enough).
 
    Every call returns (result, new state, source events of this call in order); the only events
-   of iterators are [SevNext id], one per Next call on the instrumented source [id]. *)
+   of iterators are [SevNext id], one per Next call on the instrumented source [id].
+
+   Panics.  A callback of Filter/Map/While whose [failing] record says so panics at its k-th
+   invocation ([panics_now]; a record with fail_panic = false is ignored: an iterator callback
+   cannot return an error).  Nothing in package iterator recovers: the panic leaves every Next on
+   the way out at the call that raised it, the result is [Pan] and the state returned with it is
+   what the fields hold at that moment (the item just pulled by Filter/Map/While is lost, the
+   partial chunk of chunkIterator - a local variable - too; peekable.curr, compactIterator.prev,
+   firstIterator.x (decremented before the inner call), whileIterator.done, flattenIterator.curr,
+   joinIterator.iters, runsIterator.curr are as they were before the inner call). *)
 From Juniper Require Import Common.Base Iter.Syntax Iter.Config Iter.ModelBase.
 
 Section Combinators.
@@ -27,6 +36,7 @@ Section Combinators.
     else let '(o, s', ev) := nx (pk_in p) in
          match o with
          | Item x => (Item x, mkPk true x s', ev)
+         | Pan => (Pan, mkPk false (pk_curr p) s', ev)     (* nothing was assigned *)
          | _ => (pass o, mkPk false 0 s', ev)
          end.
 
@@ -46,15 +56,19 @@ Section Combinators.
         end
     end.
 
-  (* filterIterator.Next *)
-  Fixpoint ifilter (n : nat) (keep : pred) (s : St) : ret Z St :=
+  (* filterIterator.Next; [calls] = number of invocations of keep so far *)
+  Fixpoint ifilter (n : nat) (keep : pred) (fl : failing) (calls : nat) (s : St)
+    : ret Z (nat * St) :=
     match n with
-    | O => (Out, s, [])
+    | O => (Out, (calls, s), [])
     | S n' =>
         let '(o, s', ev) := nx s in
         match o with
-        | Item x => if pred_eval keep x then (Item x, s', ev) else after ev (ifilter n' keep s')
-        | _ => (pass o, s', ev)
+        | Item x =>
+            if panics_now fl calls then (Pan, (S calls, s'), ev)     (* iter.keep(item) panics *)
+            else if pred_eval keep x then (Item x, (S calls, s'), ev)
+            else after ev (ifilter n' keep fl (S calls) s')
+        | _ => (pass o, (calls, s'), ev)
         end
     end.
 
@@ -103,20 +117,26 @@ Section Combinators.
     end.
 
   (* mapIterator.Next *)
-  Definition imap (f : fn) (s : St) : ret Z St :=
+  Definition imap (f : fn) (fl : failing) (calls : nat) (s : St) : ret Z (nat * St) :=
     let '(o, s', ev) := nx s in
     match o with
-    | Item x => (Item (fn_eval f x), s', ev)
-    | _ => (pass o, s', ev)
+    | Item x =>
+        if panics_now fl calls then (Pan, (S calls, s'), ev)         (* iter.f(item) panics *)
+        else (Item (fn_eval f x), (S calls, s'), ev)
+    | _ => (pass o, (calls, s'), ev)
     end.
 
   (* whileIterator.Next *)
-  Definition iwhile (f : pred) (done : bool) (s : St) : ret Z (bool * St) :=
-    if done then (End, (done, s), [])
+  Definition iwhile (f : pred) (fl : failing) (calls : nat) (done : bool) (s : St)
+    : ret Z (nat * bool * St) :=
+    if done then (End, (calls, done, s), [])
     else let '(o, s', ev) := nx s in
          match o with
-         | Item x => if pred_eval f x then (Item x, (false, s'), ev) else (End, (true, s'), ev)
-         | _ => (pass o, (done, s'), ev)
+         | Item x =>
+             if panics_now fl calls then (Pan, (S calls, done, s'), ev)   (* iter.f(item) panics *)
+             else if pred_eval f x then (Item x, (S calls, false, s'), ev)
+             else (End, (S calls, true, s'), ev)
+         | _ => (pass o, (calls, done, s'), ev)
          end.
 
   (* chunkIterator.Next: make([]T, 0, chunkSize) panics for a negative size *)
@@ -233,12 +253,12 @@ Inductive ist :=
 | ISrc (id : nat) (s : isrc)
 | IPeek (p : pk ist)
 | ICompact (r : rel) (first : bool) (prev : Z) (p : ist)
-| IFilter (keep : pred) (p : ist)
+| IFilter (keep : pred) (fl : failing) (calls : nat) (p : ist)
 | IFirst (x : Z) (p : ist)
 | IFlatten (rest : list ist) (curr : option ist)
 | IJoin (its : list ist)
-| IMap (f : fn) (p : ist)
-| IWhile (f : pred) (done : bool) (p : ist)
+| IMap (f : fn) (fl : failing) (calls : nat) (p : ist)
+| IWhile (f : pred) (fl : failing) (calls : nat) (done : bool) (p : ist)
 | IFlattenSlices (buffer : list Z) (q : ilst)
 with ilst :=
 | IChunk (size : Z) (p : ist)
@@ -253,14 +273,14 @@ Fixpoint isize (s : ist) : nat :=
   | ISrc _ src => S (isrc_size src)
   | IPeek p => S ((if pk_has p then 1 else 0) + isize (pk_in p))
   | ICompact _ _ _ p => S (isize p)
-  | IFilter _ p => S (isize p)
+  | IFilter _ _ _ p => S (isize p)
   | IFirst _ p => S (isize p)
   | IFlatten rest curr =>
       S (S (list_sum_map (fun c => S (S (isize c))) rest
          + match curr with Some c => S (isize c) | None => O end))
   | IJoin its => S (list_sum_map (fun c => S (isize c)) its)
-  | IMap _ p => S (isize p)
-  | IWhile _ _ p => S (isize p)
+  | IMap _ _ _ p => S (isize p)
+  | IWhile _ _ _ _ p => S (isize p)
   | IFlattenSlices b q => S (S (length b + ilsize q))
   end
 with ilsize (q : ilst) : nat :=
@@ -280,17 +300,21 @@ Fixpoint inext (fuel : nat) (s : ist) {struct fuel} : ret Z ist :=
       | ICompact r first prev p =>
           let '(o, (first', prev', p'), ev) := icompact (inext f) fuel r first prev p in
           (o, ICompact r first' prev' p', ev)
-      | IFilter keep p =>
-          let '(o, p', ev) := ifilter (inext f) fuel keep p in (o, IFilter keep p', ev)
+      | IFilter keep fl calls p =>
+          let '(o, (calls', p'), ev) := ifilter (inext f) fuel keep fl calls p in
+          (o, IFilter keep fl calls' p', ev)
       | IFirst x p =>
           let '(o, (x', p'), ev) := ifirst (inext f) x p in (o, IFirst x' p', ev)
       | IFlatten rest curr =>
           let '(o, (rest', curr'), ev) := iflatten (inext f) fuel rest curr in
           (o, IFlatten rest' curr', ev)
       | IJoin its => let '(o, its', ev) := ijoin (inext f) fuel its in (o, IJoin its', ev)
-      | IMap g p => let '(o, p', ev) := imap (inext f) g p in (o, IMap g p', ev)
-      | IWhile g done p =>
-          let '(o, (done', p'), ev) := iwhile (inext f) g done p in (o, IWhile g done' p', ev)
+      | IMap g fl calls p =>
+          let '(o, (calls', p'), ev) := imap (inext f) g fl calls p in
+          (o, IMap g fl calls' p', ev)
+      | IWhile g fl calls done p =>
+          let '(o, (calls', done', p'), ev) := iwhile (inext f) g fl calls done p in
+          (o, IWhile g fl calls' done' p', ev)
       | IFlattenSlices b q =>
           let '(o, (b', q'), ev) := iflatslices (ilnext f) fuel b q in
           (o, IFlattenSlices b' q', ev)
@@ -315,12 +339,12 @@ Fixpoint iinit (p : pz) : ist :=
   | ZSrc id s => ISrc id (isrc_init s)
   | ZPeek p => IPeek (mkPk false 0 (iinit p))
   | ZCompact r p => ICompact r true 0 (iinit p)
-  | ZFilter f _ p => IFilter f (iinit p)
+  | ZFilter f fl p => IFilter f fl O (iinit p)
   | ZFirst n p => IFirst n (iinit p)
   | ZFlatten ps => IFlatten (map iinit ps) None
   | ZJoin ps => IJoin (map iinit ps)
-  | ZMap f _ p => IMap f (iinit p)
-  | ZWhile f _ p => IWhile f false (iinit p)
+  | ZMap f fl p => IMap f fl O (iinit p)
+  | ZWhile f fl p => IWhile f fl O false (iinit p)
   | ZFlattenSlices q => IFlattenSlices [] (ilinit q)
   end
 with ilinit (q : pl) : ilst :=
@@ -351,14 +375,19 @@ Definition ilstep (q : ilst) : ret (list Z) ilst := ilnext (S (ilsize q)) q.
 
 (* ---- reducers ---- *)
 
-(* func Reduce: `for { item, ok := iter.Next(); if !ok { return acc }; acc = f(acc, item) }` *)
-Fixpoint ireduce {A : Type} (n : nat) (f : A -> Z -> A) (acc : A) (s : ist) : ret A ist :=
+(* func Reduce: `for { item, ok := iter.Next(); if !ok { return acc }; acc = f(acc, item) }`;
+   f acc item = None: the reduction function panics *)
+Fixpoint ireduce {A : Type} (n : nat) (f : A -> Z -> option A) (acc : A) (s : ist) : ret A ist :=
   match n with
   | O => (Out, s, [])
   | S n' =>
       let '(o, s', ev) := istep s in
       match o with
-      | Item x => after ev (ireduce n' f (f acc x) s')
+      | Item x =>
+          match f acc x with
+          | Some acc' => after ev (ireduce n' f acc' s')
+          | None => (Pan, s', ev)
+          end
       | End => (Item acc, s', ev)
       | _ => (pass o, s', ev)
       end
@@ -366,7 +395,7 @@ Fixpoint ireduce {A : Type} (n : nat) (f : A -> Z -> A) (acc : A) (s : ist) : re
 
 (* func Collect = Reduce(iter, nil, append) *)
 Definition icollect (n : nat) (s : ist) : ret (list Z) ist :=
-  ireduce n (fun out x => out ++ [x]) [] s.
+  ireduce n (fun out x => Some (out ++ [x])) [] s.
 
 (* the loop of func Last: buf[i%n] = item; i++.  Result at the end: (buf, i). *)
 Fixpoint ilast_loop (k : nat) (n : Z) (buf : list Z) (i : Z) (s : ist) : ret (list Z * Z) ist :=
@@ -396,7 +425,7 @@ Definition last_finish (n : Z) (buf : list Z) (i : Z) : res (list Z) :=
 Definition ilast (cfg : config) (k : nat) (n : Z) (s : ist) : ret (list Z) ist :=
   if cfg_last_guard cfg && (n <=? 0)
   then (* planned fix: drain the input, return the empty slice *)
-       let '(o, s', ev) := ireduce k (fun (u : unit) _ => u) tt s in
+       let '(o, s', ev) := ireduce k (fun (u : unit) _ => Some u) tt s in
        match o with Item _ => (Item [], s', ev) | _ => (pass o, s', ev) end
   else if n <? 0 then (Pan, s, [])                         (* make([]T, n) *)
   else let '(o, s', ev) := ilast_loop k n (zrepeat 0 n) 0 s in
@@ -495,9 +524,11 @@ Definition obs_val (o : res (list Z)) : robs :=
   match o with
   | Item l => RVal l | End => REnd | Err e => RErr e | Pan => RPanic | Out => RBad
   end.
-(* a Go panic ends the run; so does running out of fuel (never happens) *)
+(* a Go panic does not end the run: the consumer (the harness) recovers it, records RPanic for
+   that step and goes on with its next step on the same pipeline.  Only running out of fuel ends
+   the run (never happens: IterProofs.v inext_fuel_enough, StreamProofs.v snext_fuel_enough). *)
 Definition stops (r : robs) : bool :=
-  match r with RPanic | RBad => true | _ => false end.
+  match r with RBad => true | _ => false end.
 
 Inductive irun_st := RZ (s : ist) | RL (q : ilst).
 Definition irun_init (p : pz + pl) : irun_st :=
@@ -508,7 +539,8 @@ Definition irun_next (s : irun_st) : robs * irun_st * list sev :=
   | RL q => let '(o, q', ev) := ilstep q in (obs_l o, RL q', ev)
   end.
 
-(* consumer steps; CNext's live flag is ignored, CClose is a no-op returning RUnit *)
+(* consumer steps; CNext's live flag is ignored, CClose is a no-op returning RUnit; a Next that
+   panics is observed as RPanic, the run goes on *)
 Fixpoint irun_steps (ids : list nat) (s : irun_st) (log : list sev) (ops : list cop)
   : list step_obs * list sev :=
   match ops with
@@ -531,8 +563,8 @@ Definition irun_reduce (cfg : config) (p : pz) (r : reducer) : robs * list sev :
   | RCollect => let '(o, _, ev) := icollect (ired_fuel s) s in (obs_val o, ev)
   | RLast n => let '(o, _, ev) := ilast cfg (ired_fuel s) n s in (obs_val o, ev)
   | ROne => let '(o, _, ev) := ione s in (obs_val o, ev)
-  | RSum => let '(o, _, ev) := ireduce (ired_fuel s) Z.add 0 s in
-            (obs_val (match o with Item x => Item [x] | _ => pass o end), ev)
+  | RSum fl => let '(o, _, ev) := ireduce (ired_fuel s) (isum_step fl) (O, 0) s in
+               (obs_val (match o with Item a => Item [snd a] | _ => pass o end), ev)
   | REqualSelf =>
       let '(o, _, ev) := iequal (ired_fuel s) s [iinit (pz_shift 1000 p)] in
       (obs_val (match o with Item b => Item [if b then 1 else 0] | _ => pass o end), ev)
